@@ -161,11 +161,21 @@ def gen_world(rng, max_slabs=4, max_halos=6, max_parts=4, want_clean=None, lc=Fa
         vz += 1.0
     nslab = 1 if lc else (len(halo_counts) if halo_counts else rng.randrange(1, max_slabs + 1))
     inds = [0] if lc else sorted(rng.sample(range(0, 40), nslab))
+    if not lc and rng.random() < 0.15:
+        # superslab numbers with four digits (a simulation with more than 1000 slabs); all of one width, so that the
+        # order of the file names is the order of the numbers (mixed widths sort differently as strings, and which
+        # order a directory load should then follow is not something any property states)
+        inds = sorted(rng.sample([1000, 1001, 1002, 1003, 1010, 1100, 1999, 2000, 2001], nslab))
     T = rng.randrange(1, 4)
     header = {'BoxSize': box, 'VelZSpace_to_kms': vz, 'ppd': float(rng.choice([64, 1000, 6912])),
               'ParticleMassHMsun': 2.1e9, 'H0': 67.36, 'SimName': 'SimWorld', 'Redshift': 0.5,
               'FullStepNumber': 580, 'OutputType': 'GroupOutput', 'SimSet': 'Verif',
               'TimeSliceRedshifts': [2.0, 1.0, 0.5], 'NumTimeSliceRedshiftsPrev_truth': T}
+    # headers of simulations run in Mpc rather than Mpc/h carry hMpc = 0 and a second, different box size; the loader
+    # documents BoxSize as the unit of every length-like column
+    header['hMpc'] = rng.choice([1, 1, 0])
+    header['BoxSizeHMpc'] = float(box) if header['hMpc'] else float(box) * 0.6736
+    header['BoxSizeMpc'] = float(box) / 0.6736 if header['hMpc'] else float(box)
     serial = [1]
     # halo ids are 64-bit unsigned: now and then far beyond what a float64 (or an int64) holds exactly
     hid = [rng.choice([0, 0, 0, 2 ** 53 + 1, 2 ** 63 + 11, 2 ** 64 - 10 ** 9]) + rng.randrange(1, 1000)]
